@@ -41,6 +41,7 @@ fn main() {
                 match cmd2.as_str() {
                     "api" => run_api(&c, &sb, &mut o),
                     "originops" => run_originops(&c, &mut o),
+                    "threads" => run_threads(&c, &sb, &mut o),
                     _ => panic!("unknown command"),
                 }
                 writeln!(o, "end").unwrap();
@@ -131,6 +132,119 @@ fn run_originops(c: &Case, o: &mut String) {
             _ => panic!("originops: unknown line {:?}", l),
         }
     }
+}
+
+// ---------------------------------------------------------------------------------------
+// threads: the same jobs run sequentially (reference) and concurrently on N threads.
+//   file <hexpath> <hextext>      (written once, read-only afterwards)
+//   job <sv|lib|pp|svi> <hexsrc>
+//   threads <n> <rounds>
+fn job_result(kind: &str, src: &str, path: &str) -> String {
+    let defs = new_defines();
+    let inc: Vec<PathBuf> = Vec::new();
+    let r = std::panic::catch_unwind(|| match kind {
+        "pp" => match preprocess_str(src, path, &defs, &inc, false, false, 0, 0) {
+            Ok((t, d)) => format!("ok {} {}", t.text(), canon_defines(&d, true).join("|")),
+            Err(e) => format!("err {}", canon_err(&e)),
+        },
+        "lib" => match parse_lib_str(src, path, &defs, &inc, false, false) {
+            Ok((t, d)) => format!("ok {} {}", tree_line((&t).into_iter().event()), canon_defines(&d, true).join("|")),
+            Err(e) => format!("err {}", canon_err(&e)),
+        },
+        "svi" => match parse_sv_str(src, path, &defs, &inc, false, true) {
+            Ok((t, d)) => format!("ok {} {}", tree_line((&t).into_iter().event()), canon_defines(&d, true).join("|")),
+            Err(e) => format!("err {}", canon_err(&e)),
+        },
+        _ => match parse_sv_str(src, path, &defs, &inc, false, false) {
+            Ok((t, d)) => format!("ok {} {}", tree_line((&t).into_iter().event()), canon_defines(&d, true).join("|")),
+            Err(e) => format!("err {}", canon_err(&e)),
+        },
+    });
+    match r {
+        Ok(s) => s,
+        Err(e) => format!("panic {}", panic_msg(e)),
+    }
+}
+
+fn run_threads(c: &Case, sandbox_root: &Path, o: &mut String) {
+    let sb = sandbox_root.join(format!("c{}", c.id));
+    let _ = std::fs::remove_dir_all(&sb);
+    std::fs::create_dir_all(&sb).unwrap();
+    std::env::set_current_dir(&sb).unwrap();
+    let mut jobs: Vec<(String, String)> = Vec::new();
+    for l in &c.lines {
+        match l[0].as_str() {
+            "file" => {
+                let p = sb.join(unhex_str(&l[1]));
+                if let Some(d) = p.parent() {
+                    std::fs::create_dir_all(d).unwrap();
+                }
+                std::fs::write(&p, unhex(&l[2])).unwrap();
+            }
+            "job" => jobs.push((l[1].clone(), unhex_str(&l[2]))),
+            "threads" => {
+                let n: usize = l[1].parse().unwrap();
+                let rounds: usize = l[2].parse().unwrap();
+                // sequential reference, each job on a fresh thread
+                let mut reference: Vec<String> = Vec::new();
+                for (k, src) in &jobs {
+                    let (k, src) = (k.clone(), src.clone());
+                    let h = std::thread::Builder::new()
+                        .stack_size(256 * 1024 * 1024)
+                        .spawn(move || job_result(&k, &src, "t.sv"))
+                        .unwrap();
+                    reference.push(h.join().unwrap_or_else(|_| "thread-panic".to_string()));
+                }
+                for (i, r) in reference.iter().enumerate() {
+                    writeln!(o, "seq {} {} {}", i, r.split_whitespace().next().unwrap_or("?"), r.len()).unwrap();
+                }
+                let jobs = std::sync::Arc::new(jobs.clone());
+                let reference = std::sync::Arc::new(reference);
+                let barrier = std::sync::Arc::new(std::sync::Barrier::new(n));
+                let mut hs = Vec::new();
+                for t in 0..n {
+                    let (jobs, reference, barrier) = (jobs.clone(), reference.clone(), barrier.clone());
+                    hs.push(
+                        std::thread::Builder::new()
+                            .stack_size(256 * 1024 * 1024)
+                            .spawn(move || {
+                                let mut bad: Vec<String> = Vec::new();
+                                let mut done = 0usize;
+                                barrier.wait();
+                                for r in 0..rounds {
+                                    for j in 0..jobs.len() {
+                                        let i = (j + t + r) % jobs.len();
+                                        let got = job_result(&jobs[i].0, &jobs[i].1, "t.sv");
+                                        done += 1;
+                                        if got != reference[i] {
+                                            bad.push(format!("mismatch job={} thread={} round={}", i, t, r));
+                                        }
+                                    }
+                                }
+                                (done, bad)
+                            })
+                            .unwrap(),
+                    );
+                }
+                let mut total = 0;
+                for h in hs {
+                    match h.join() {
+                        Ok((d, bad)) => {
+                            total += d;
+                            for b in bad.iter().take(3) {
+                                writeln!(o, "{}", b).unwrap();
+                            }
+                        }
+                        Err(_) => writeln!(o, "mismatch thread-died").unwrap(),
+                    }
+                }
+                writeln!(o, "concurrent-runs {} threads {}", total, n).unwrap();
+            }
+            _ => panic!("threads: unknown line {:?}", l),
+        }
+    }
+    std::env::set_current_dir("/").unwrap();
+    let _ = std::fs::remove_dir_all(&sb);
 }
 
 // ---------------------------------------------------------------------------------------
